@@ -70,6 +70,7 @@ def run(facts, chk, tier, only=None):
     from . import tableops
     chk.guard('C06.func', 'C06.func:filter', lambda: tableops.check_filter(facts, chk, 'C06.func', tier))
     chk.guard('C06.func', 'C06.func:update_counts', lambda: tableops.check_update_counts(facts, chk, 'C06.func', tier))
+    chk.guard('C06.func', 'C06.func:wide:run', lambda: tableops.check_wide(facts, chk, 'C06.func', tier))
     chk.guard('C06.func', 'C06.func:apply_filters', lambda: tableops.check_apply_filters(facts, chk, 'C06.func', tier))
     ft = facts.adt('cli::FilterType')
     vnames = [v['name'] for v in ft['variants']]
